@@ -175,6 +175,60 @@ pub fn loop_menu() -> Vec<(&'static str, T)> {
     full_menu().into_iter().filter(|(n, _)| names.contains(n)).collect()
 }
 
+/// Templates that only the feature-cluster menus use.
+fn extra_templates() -> Vec<(&'static str, T)> {
+    use Bin::*;
+    vec![
+        ("FOR J=1 TO 2", T::S(Stmt::For("J".into(), num(1.0), num(2.0), None))),
+        ("PRINT I;J;X", T::S(p(vec![PItem::E(var("I")), PItem::Semi, PItem::E(var("J")), PItem::Semi, PItem::E(var("X"))]))),
+        ("DATA 2", T::S(Stmt::Data(vec![DataItem::N(2.0)]))),
+        ("PRINT A;B$", T::S(p(vec![PItem::E(var("A")), PItem::Semi, PItem::E(var("B$"))]))),
+        ("DEF FNA(X)=X*2", T::S(Stmt::Def("FNA".into(), vec!["X".into()], bin(Mul, var("X"), num(2.0))))),
+        ("PRINT X;Y", T::S(p(vec![PItem::E(var("X")), PItem::Semi, PItem::E(var("Y"))]))),
+        ("PRINT A(I);A(0)", T::S(p(vec![PItem::E(call("A", vec![var("I")])), PItem::Semi, PItem::E(call("A", vec![num(0.0)]))]))),
+        ("A(3)=1", T::S(Stmt::Let(false, lvi("A", vec![num(3.0)]), num(1.0)))),
+        ("B$(1)=\"q\"", T::S(Stmt::Let(false, lvi("B$", vec![num(1.0)]), st("q")))),
+        ("PRINT B$(1);B$(2)", T::S(p(vec![PItem::E(call("B$", vec![num(1.0)])), PItem::Semi, PItem::E(call("B$", vec![num(2.0)]))]))),
+        ("A(1)=\"s\" (ill-typed)", T::S(Stmt::Let(false, lvi("A", vec![num(1.0)]), st("s")))),
+        ("IF X THEN GOSUB sub", T::S(Stmt::If(var("X"), br(Stmt::Gosub(SUB_LINE)), None))),
+        ("IF I=1 THEN FOR J=1 TO 2", T::S(Stmt::If(bin(Eq, var("I"), num(1.0)), br(Stmt::For("J".into(), num(1.0), num(2.0), None)), None))),
+    ]
+}
+
+fn pick(names: &[&'static str]) -> Vec<(&'static str, T)> {
+    let mut all = full_menu();
+    all.extend(extra_templates());
+    names
+        .iter()
+        .map(|n| all.iter().find(|(m, _)| m == n).unwrap_or_else(|| panic!("no template {}", n)).clone())
+        .collect()
+}
+
+/// Nested loops, jumps over loop heads, subroutines.
+pub fn nest_menu() -> Vec<(&'static str, T)> {
+    pick(&["FOR I=1 TO 2", "FOR J=1 TO 2", "NEXT I", "NEXT J", "IF X THEN last", "X=X+1", "PRINT I;J;X", "GOTO next-but-one", "GOSUB sub", "IF I=1 THEN FOR J=1 TO 2"])
+}
+
+/// DATA statements, READ into both kinds, RESTORE.
+pub fn data_menu() -> Vec<(&'static str, T)> {
+    pick(&["DATA 1,\"x\"", "DATA y", "DATA 2", "READ A", "READ B$", "READ A,B$", "RESTORE", "PRINT A;B$", "GOTO first"])
+}
+
+/// User functions: definition, redefinition, dynamic scoping, failing bodies.
+pub fn fn_menu() -> Vec<(&'static str, T)> {
+    pick(&["DEF FNA(X)=X+Y", "DEF FNB(Y)=FNA(Y)", "DEF FNA(X)=X*2", "DEF FNC(X)=X/0", "Y=3", "X=X+1", "PRINT FNA(2)", "PRINT FNB(1)", "PRINT FNC(1)", "PRINT X;Y", "GOTO first"])
+}
+
+/// Arrays: explicit and implicit dimensioning, strides, subscript errors.
+pub fn array_menu() -> Vec<(&'static str, T)> {
+    pick(&["DIM A(2)", "DIM M(1,2,1)", "A(I)=I", "M(1,J,0)=7", "PRINT A(11)", "PRINT M(1,2,1);M(0,0,0)", "FOR I=1 TO 2", "NEXT I", "PRINT A(I);A(0)", "A(3)=1", "B$(1)=\"q\"", "PRINT B$(1);B$(2)", "FOR J=2 TO 1 STEP -1", "NEXT J", "A(1)=\"s\" (ill-typed)"])
+}
+
+/// IF / ELSE lines combined with subroutines and loops.
+pub fn branch_menu() -> Vec<(&'static str, T)> {
+    pick(&["IF X THEN PRINT 1", "IF X THEN PRINT 1 ELSE PRINT 2", "IF X=0 THEN GOSUB sub ELSE PRINT \"NO\"", "IF X THEN X=5", "IF X THEN last", "IF X THEN GOSUB sub", "X=X+1", "PRINT X", "GOTO first", "RETURN", "FOR I=1 TO 2", "NEXT I"])
+}
+
 /// Lays a statement sequence out on lines. `joins` bit i set = statement i+1 shares the line
 /// of statement i. Returns the program AST.
 pub fn layout(seq: &[T], joins: u32) -> ProgramAst {
